@@ -19,6 +19,7 @@ type cancelProg struct {
 	Full     string // complete output of a finite program
 	Own      string // own outcome class of a finite program
 	TreeOK   bool   // also run on the interpreter (no spawn)
+	Sync     bool   // also run through VM.SpawnSync (the host call that waits itself)
 }
 
 var c10Progs = []cancelProg{
@@ -56,7 +57,7 @@ fn f(n: int) -> int { println(n); f(n + 1) }
 `},
 	// a core blocked in a long-running builtin when the cancellation arrives: the builtin is given
 	// the context and has to give up at its next look at it
-	{Name: "one-long-sleep", Infinite: false, Own: "ok", Full: "before\nafter\n", TreeOK: true, Source: `fn main() {
+	{Name: "one-long-sleep", Infinite: false, Sync: true, Own: "ok", Full: "before\nafter\n", TreeOK: true, Source: `fn main() {
     println("before");
     time.sleep(3.0);
     println("after");
@@ -71,7 +72,17 @@ fn w() {
     println("w");
 }
 `},
-	{Name: "spawned-infinite", Infinite: true, Source: `fn main() {
+	{Name: "main-sleeps-while-a-spawned-core-spins", Infinite: true, Sync: true, Source: `fn main() {
+    spawn w();
+    time.sleep(3.0);
+    println("m");
+}
+fn w() {
+    let i = 0;
+    loop { i += 1; }
+}
+`},
+	{Name: "spawned-infinite", Infinite: true, Sync: true, Source: `fn main() {
     spawn w();
     println("m");
 }
@@ -154,6 +165,29 @@ func c10Body(h *hostEnv, prog compiler.CompileOutput) {
 	h.log("unfinished-at-return:%s", vsched.UnfinishedDesc())
 }
 
+// c10BodySync: the same through VM.SpawnSync, which waits itself and maps what Wait found to the
+// outcome of the invocation.
+func c10BodySync(h *hostEnv, prog compiler.CompileOutput) {
+	h.ctx.OnFire = func(reason string) {
+		h.log("cancel:%s lines=%d sleeps=%d", reason, lineCount(h.rec.out.String()), vsched.Sleeps())
+	}
+	vm := h.newVM(prog, runtime.CoreLimits{CallStackMaxSize: 40, StackMaxSize: 200, MaxMemorySize: 400})
+	vsched.GoLow(func() {
+		vsched.Step("cancel")
+		h.ctx.cancelNow(context.Canceled)
+	})
+	res := vm.SpawnSync(runtime.MainFn(), nil, nil)
+	o := Obs{}
+	if res.Exception != nil {
+		i := res.Exception.Interrupt
+		classifyVM(&o, &i, nil)
+	} else {
+		o.Class = "ok"
+	}
+	h.log("wait:%s%s lines=%d sleeps=%d", o.Class, kindSuffix(o.Kind), lineCount(h.rec.out.String()), vsched.Sleeps())
+	h.log("unfinished-at-return:%s", vsched.UnfinishedDesc())
+}
+
 func c10Judge(p cancelProg) func(o execObs) (string, string) {
 	return func(o execObs) (string, string) {
 		var cancelLines = -1
@@ -213,6 +247,13 @@ func init() {
 				Bound:      map[string]int{"quick": 2, "thorough": 3},
 				PollBudget: 12, Horizon: 20000,
 			})
+			if p.Sync {
+				cases = append(cases, schedCase{
+					Name: p.Name + "(SpawnSync)", Source: p.Source, Body: c10BodySync, Judge: c10Judge(p),
+					Bound:      map[string]int{"quick": 2, "thorough": 3},
+					PollBudget: 12, Horizon: 20000,
+				})
+			}
 		}
 		return &Check{ID: "C10", Scenarios: []Scenario{
 			schedScenario("vm-cancel-schedules", cases),
